@@ -169,9 +169,10 @@ Fixpoint all_unwrap (e : err) : bool :=
 Lemma as_eq_std_as e t : all_unwrap e = true -> as_ e t = std_as e t.
 Proof.
   induction e using err_ind'; cbn [as_ std_as all_unwrap]; intro Hu; try reflexivity.
-  - apply andb_true_iff in Hu as [H1 H2]. rewrite H1. destruct (assignable _ _); [reflexivity|]. now apply IHe.
+  - apply andb_true_iff in Hu as [H1 H2]. rewrite H1. destruct (assignable _ _); [reflexivity|].
+    destruct (as_method _ _); [reflexivity|]. now apply IHe.
   - cbn. destruct (assignable _ _); [reflexivity|]. now apply IHe1.
-  - destruct (assignable _ _); [reflexivity|]. apply first_some_ext. intros c Hc.
+  - destruct (assignable _ _); [reflexivity|]. cbn [as_method]. apply first_some_ext. intros c Hc.
     rewrite Forall_forall in H. apply H; [assumption|]. rewrite forallb_forall in Hu. now apply Hu.
   - destruct (assignable _ _); [reflexivity|]. apply first_some_ext. intros c Hc.
     rewrite Forall_forall in H. apply H; [assumption|]. rewrite forallb_forall in Hu. now apply Hu.
@@ -193,11 +194,12 @@ Lemma std_as_implies_as_chain e t n :
   single_chain e = true -> std_as e t = Some n -> as_ e t = Some n.
 Proof.
   induction e using err_ind'; cbn [as_ std_as single_chain]; intros Hm Hs;
-    try (destruct (assignable _ _); [assumption|]); try discriminate.
+    try (destruct (assignable _ _); [assumption|]);
+    try (destruct (as_method _ _); [assumption|]); try discriminate.
   - destruct (has_unwrap _); [|discriminate]. now apply IHe.
-  - cbn in Hs. now apply IHe1.
+  - now apply IHe1.
   - destruct cs; [cbn in Hs; discriminate|discriminate].
-  - cbn in Hs. now apply IHe.
+  - now apply IHe.
 Qed.
 
 Lemma std_unwrap_agrees e : has_unwrap e = true -> std_unwrap e = unwrap_once e.
